@@ -179,7 +179,8 @@ def qcon_zprime(run, db, rule):
 
 
 # (lengths of the cosine lists per m = 1.., lengths of the sine lists per m = 1.., length of the m = 0 list)
-Q2D_SHAPES = (((2,), (2,), 2), ((5,), (1,), 0), ((1, 3), (2, 0), 3), ((0, 2, 1), (3, 0, 1), 1), ((4,), (5,), 0))
+Q2D_SHAPES = (((2,), (2,), 2), ((5,), (1,), 0), ((1, 3), (2, 0), 3), ((0, 2, 1), (3, 0, 1), 1), ((4,), (5,), 0),
+              ((5,), (3,), 0), ((3, 5), (5, 3), 0))          # a shorter family after a longer one (scratch storage reused between sums)
 
 
 def q2d_zprime(run, db, rule):
@@ -249,7 +250,9 @@ def with_fallback(group_fn, needs, rule, floor):
         done = decided(run, db)
         try:
             group_fn(run, db)
-        except AnalysisError as e:
+        except (AnalysisError, NormError, AttributeError, IndexError, KeyError, TypeError, ValueError) as e:
+            if not isinstance(e, (AnalysisError, NormError)):
+                e = AnalysisError('internal error of the induction rule on this tree (%s: %s)' % (type(e).__name__, str(e)[:120]))
             missing = [p for p in needs if p not in done]
             if missing:
                 raise AnalysisError('%s; and not decided for fixed lengths either: %s' % (e, ', '.join(missing)))
